@@ -31,7 +31,7 @@ struct Case {
 // ------------------------------------------------------------------ the trial itself (runs in the exec'ed child)
 std::atomic<int> g_arrived{ 0 }, g_returned{ 0 }, g_overlap{ -1 }, g_zero{ 0 }, g_one{ 0 }, g_neg{ 0 };
 pthread_barrier_t g_bar;
-struct TArg { int id; uint64_t seed; int ops; uint64_t digest; };
+struct TArg { int id; uint64_t seed; int ops; uint64_t digest; unsigned char first_random[32]; };
 int g_focus = -1;
 
 uint64_t workload(uint64_t seed, int ops) {
@@ -80,6 +80,7 @@ void *thread_main(void *a_) {
     int rc = sodium_init();
     if (g_returned.fetch_add(1) == 0) g_overlap.store(g_arrived.load());
     if (rc == 0) g_zero.fetch_add(1); else if (rc == 1) g_one.fetch_add(1); else g_neg.fetch_add(1);
+    randombytes_buf(a->first_random, sizeof a->first_random);      // every thread's very first draw: compared across threads after the join
     // a thread that has returned from sodium_init must see a fully initialised library
     a->digest = workload(a->seed, a->ops);
     random_ops(a->seed ^ 0x77);
@@ -94,14 +95,22 @@ int trial_main(const Case &c) {
     for (int i = 0; i < c.nthreads; i++) pthread_join(th[(size_t) i], nullptr);
     int bad_digest = 0;
     for (int i = 0; i < c.nthreads; i++) if (workload(args[(size_t) i].seed, c.ops) != args[(size_t) i].digest) bad_digest++;
-    printf("TRIAL zero=%d one=%d neg=%d overlap=%d bad_digest=%d again=%d\n", g_zero.load(), g_one.load(), g_neg.load(), g_overlap.load(), bad_digest, sodium_init());
+    // 32 random bytes drawn independently by different threads are equal with probability 2^-256: equal outputs, or the keystream of
+    // the all-zero ChaCha20 key / nonce (an unseeded per-thread generator), mean that a thread's generator state was not set up
+    static const unsigned char ZK[32] = { 0x76, 0xb8, 0xe0, 0xad, 0xa0, 0xf1, 0x3d, 0x90, 0x40, 0x5d, 0x6a, 0xe5, 0x53, 0x86, 0xbd, 0x28, 0xbd, 0xd2, 0x19, 0xb8, 0xa0, 0x8d, 0xed, 0x1a, 0xa8, 0x36, 0xef, 0xcc, 0x8b, 0x77, 0x0d, 0xc7 };
+    int dup_random = 0;
+    for (int i = 0; i < c.nthreads; i++) {
+        if (memcmp(args[(size_t) i].first_random, ZK, 32) == 0) dup_random++;
+        for (int j = i + 1; j < c.nthreads; j++) if (memcmp(args[(size_t) i].first_random, args[(size_t) j].first_random, 32) == 0) dup_random++;
+    }
+    printf("TRIAL zero=%d one=%d neg=%d overlap=%d bad_digest=%d again=%d dup_random=%d\n", g_zero.load(), g_one.load(), g_neg.load(), g_overlap.load(), bad_digest, sodium_init(), dup_random);
     fflush(stdout);
     return 0;
 }
 
 // ------------------------------------------------------------------ the exploring parent
 std::string g_self;
-struct TrialResult { bool ran; int zero, one, neg, overlap, bad_digest, again; bool race; std::string race_text; int status; bool hung = false; };
+struct TrialResult { bool ran; int zero, one, neg, overlap, bad_digest, again, dup_random = 0; bool race; std::string race_text; int status; bool hung = false; };
 const double TRIAL_TIMEOUT_S = 180.0;
 TrialResult run_trial(const Case &c) {
     TrialResult t; t.ran = false; t.zero = t.one = t.neg = t.overlap = t.bad_digest = t.again = 0; t.race = false; t.status = 0;
@@ -131,7 +140,7 @@ TrialResult run_trial(const Case &c) {
     std::ifstream f(tmpl); std::string all((std::istreambuf_iterator<char>(f)), std::istreambuf_iterator<char>()); unlink(tmpl);
     t.status = st;
     size_t p = all.find("TRIAL zero=");
-    if (p != std::string::npos && sscanf(all.c_str() + p, "TRIAL zero=%d one=%d neg=%d overlap=%d bad_digest=%d again=%d", &t.zero, &t.one, &t.neg, &t.overlap, &t.bad_digest, &t.again) == 6) t.ran = true;
+    if (p != std::string::npos && sscanf(all.c_str() + p, "TRIAL zero=%d one=%d neg=%d overlap=%d bad_digest=%d again=%d dup_random=%d", &t.zero, &t.one, &t.neg, &t.overlap, &t.bad_digest, &t.again, &t.dup_random) == 7) t.ran = true;
     size_t q = all.find("WARNING: ThreadSanitizer");
     if (q != std::string::npos) { t.race = true; t.race_text = all.substr(q, 1800); }
     if (!t.ran && !t.race) t.race_text = all.substr(0, 600);
@@ -154,6 +163,7 @@ bool run(const Case &c, std::string &msg) {
     if (t.zero != 1 || t.one != c.nthreads - 1 || t.neg != 0) { snprintf(b, sizeof b, "sodium_init with %d racing threads returned 0 to %d, 1 to %d and -1 to %d of them (expected exactly one 0)", c.nthreads, t.zero, t.one, t.neg); msg = b; return false; }
     if (t.again != 1) { snprintf(b, sizeof b, "sodium_init after initialisation returned %d instead of 1", t.again); msg = b; return false; }
     if (t.bad_digest) { snprintf(b, sizeof b, "%d of %d threads computed results that differ from the same workload run sequentially", t.bad_digest, c.nthreads); msg = b; return false; }
+    if (t.dup_random) { snprintf(b, sizeof b, "%d pair(s) of threads (family %s) obtained identical 32-byte outputs from randombytes_buf, or the output of an unseeded generator", t.dup_random, c.family ? "internal RNG" : "default RNG"); msg = b; return false; }
     g_last_overlap = t.overlap;
     return true;
 }
